@@ -108,6 +108,32 @@ def locate_stage(req, timeout):
     return _STAGE_CACHE[key]
 
 
+_SINGLE_CACHE = {}
+
+
+def single_memo(r, timeout):
+    """one stage on one input, run alone, memoised: an input that hangs the lexer is run once, not once per op and dialect"""
+    key = json.dumps(r, sort_keys=True)
+    if key not in _SINGLE_CACHE:
+        _SINGLE_CACHE[key] = run_single(r, timeout)[0]
+    return _SINGLE_CACHE[key]
+
+
+def prefetch_stages(reqs, timeout):
+    """warm the memo in parallel for the first stages of the crashed requests"""
+    import concurrent.futures
+    todo = {}
+    for req in reqs:
+        if req["op"] in ("pl_json_to_sql", "rq_json_to_sql"):
+            continue
+        src = req.get("prql") if "prql" in req else req.get("src")
+        for r in ({"op": "lex", "src": src}, {"op": "pl", "prql": src}):
+            todo[json.dumps(r, sort_keys=True)] = r
+    todo = [r for k, r in todo.items() if k not in _SINGLE_CACHE]
+    with concurrent.futures.ThreadPoolExecutor(vlib.NCPU) as ex:
+        list(ex.map(lambda r: single_memo(r, timeout), todo))
+
+
 def _locate_stage(req, timeout):
     """for a source request that crashed / timed out: the first stage of lex -> pl -> (fmt) -> rq -> compile that does so alone"""
     op = req["op"]
@@ -125,7 +151,7 @@ def _locate_stage(req, timeout):
         r = {"op": o, k: src}
         if "target" in req and o in ("compile", "staged"):
             r["target"] = req["target"]
-        a, _ = run_single(r, timeout)
+        a = single_memo(r, timeout)
         last = a
         if "crash" in a:
             stage = STAGE_OF[o]
@@ -160,6 +186,7 @@ class Explorer:
         if not reqs:
             return []
         ans = vh_batch(reqs, shards=vlib.NCPU if len(reqs) >= 32 else 1, timeout=timeout, idle=20)
+        prefetch_stages([r for r, a in zip(reqs, ans) if a is not None and "crash" in a], self.single_timeout)
         for r, a in zip(reqs, ans):
             self.n_req += 1
             op = r["op"]
